@@ -58,10 +58,11 @@ var heapContract = map[string][]string{
 }
 
 // Standard-library functions whose effect on a map/slice ARGUMENT is known (package path -> function):
-//   stdReaders   read the argument, the result does not share its storage
-//   stdIterators read the argument LAZILY: the result (an iterator) is treated as an alias of the argument, so it
-//                must be consumed where the lock is still held and must not escape
-//   stdConsumers consume an iterator given at the argument position stored in the table
+//
+//	stdReaders   read the argument, the result does not share its storage
+//	stdIterators read the argument LAZILY: the result (an iterator) is treated as an alias of the argument, so it
+//	             must be consumed where the lock is still held and must not escape
+//	stdConsumers consume an iterator given at the argument position stored in the table
 var stdReaders = map[string]map[string]bool{
 	"maps":   {"Clone": true, "Equal": true, "EqualFunc": true},
 	"slices": {"Clone": true, "Contains": true, "ContainsFunc": true, "Index": true, "IndexFunc": true, "Equal": true, "Max": true, "Min": true},
@@ -102,7 +103,10 @@ type fileCtx struct {
 	imports map[string]string                   // local package name -> import path
 }
 
-func loadFile(filename string) (*fileCtx, error) {
+func loadFile(filename string) (*fileCtx, error) { return loadFileIn(filename, "") }
+
+// loadFileIn: with a repository root, the packages of the module are really imported (declarations only); see importer.go
+func loadFileIn(filename, repo string) (*fileCtx, error) {
 	fset := token.NewFileSet()
 	f, err := parser.ParseFile(fset, filename, nil, parser.SkipObjectResolution)
 	if err != nil {
@@ -114,8 +118,12 @@ func loadFile(filename string) (*fileCtx, error) {
 		Uses:       map[*ast.Ident]types.Object{},
 		Selections: map[*ast.SelectorExpr]*types.Selection{},
 	}
+	var imp types.Importer = &fakeImporter{pkgs: map[string]*types.Package{}}
+	if repo != "" {
+		imp = newModuleImporter(repo, fset)
+	}
 	conf := types.Config{
-		Importer: &fakeImporter{pkgs: map[string]*types.Package{}},
+		Importer: imp,
 		Error:    func(error) {}, // other files of the package are missing: errors are expected
 	}
 	_, _ = conf.Check(f.Name.Name, fset, []*ast.File{f}, info)
@@ -367,18 +375,18 @@ type val struct {
 }
 
 type an struct {
-	fc     *fileCtx
-	t      target
-	env    map[types.Object]string // receiver objects and local aliases -> access path
-	st     lockState
-	fr     *frame
-	depth  int
-	active map[*ast.FuncDecl]bool
-	secs   []*section
-	cur    *section
-	loops  []lockState // state at entry of the enclosing loops (for continue)
-	breaks []lockState // state at entry of the enclosing loops/switches (for break)
-	labels map[string]lockState
+	fc      *fileCtx
+	t       target
+	env     map[types.Object]string // receiver objects and local aliases -> access path
+	st      lockState
+	fr      *frame
+	depth   int
+	active  map[*ast.FuncDecl]bool
+	secs    []*section
+	cur     *section
+	loops   []lockState // state at entry of the enclosing loops (for continue)
+	breaks  []lockState // state at entry of the enclosing loops/switches (for break)
+	labels  map[string]lockState
 	reached map[*ast.FuncDecl]bool // methods whose body was analysed in place (spliced) somewhere
 }
 
@@ -1556,6 +1564,7 @@ func main() {
 	repo := flag.String("repo", "", "repository root (contains storage/safeMap.go and storage/genericStack.go)")
 	out := flag.String("out", "", "Coq file to write for SafeMap/GenericStack ('-' = stdout)")
 	outdir := flag.String("outdir", "", "directory for the field-mode files (CacheSkeleton_gen.v, WQSkeleton_gen.v); '-' = stdout")
+	only := flag.String("only", "", "with -outdir: generate only this file (e.g. PubSkeleton_gen.v)")
 	flag.Parse()
 	if *repo == "" || (*out == "" && *outdir == "") || flag.NArg() != 0 {
 		fmt.Fprintln(os.Stderr, "usage: lockskel -repo <dir> [-out <file.v>] [-outdir <dir>]")
@@ -1563,6 +1572,9 @@ func main() {
 	}
 	if *outdir != "" {
 		for _, g := range fgroups {
+			if *only != "" && g.outFile != *only {
+				continue
+			}
 			text, summary, reasons, err := generateGroup(*repo, g)
 			if err != nil {
 				fmt.Fprintln(os.Stderr, "lockskel:", err)
